@@ -194,5 +194,31 @@ func c04Scenarios() []c04Scenario {
 	if len(initSeg) > 0 {
 		backSeek("init + fragment", c04Cat(initSeg, box("moof", c04Cat(mfhd, box("traf", c04Cat(tfhd, trun2)))), mdat))
 	}
+	// sgpd: every sample group entry type the library decodes (and an unknown one) x versions x default lengths from 0
+	// to beyond the minimal entry size x small / all-ones / truncated entry bytes (length arithmetic in the entry decoders)
+	for _, gt := range []string{"seig", "roll", "rap ", "alst", "prol", "zzzz"} {
+		for _, ver := range []byte{0, 1, 2} {
+			for _, dl := range []uint32{0, 1, 2, 3, 4, 5, 7, 8, 12, 20, 0xffffffff} {
+				for k, body := range [][]byte{{0, 1, 0, 0}, {0, 1, 0, 0, 0, 0, 0, 9}, {0xff, 0xff, 0xff, 0xff}, {0, 0}, {0, 2, 0, 1, 0, 0, 0, 1, 0, 0, 0, 2, 0, 1, 0, 2}} {
+					pl := []byte{ver, 0, 0, 0}
+					pl = append(pl, gt...)
+					if ver >= 1 {
+						pl = append(pl, c04U32(dl)...)
+					}
+					if ver >= 2 {
+						pl = append(pl, c04U32(1)...)
+					}
+					pl = append(pl, c04U32(1)...) // entry_count
+					if ver >= 1 && dl == 0 {
+						pl = append(pl, c04U32(uint32(len(body)))...)
+					}
+					pl = append(pl, body...)
+					if dl <= 5 || k == 0 || dl == 0xffffffff {
+						add(fmt.Sprintf("sgpd %q v%d default_length %d body#%d", gt, ver, dl, k), box("sgpd", pl))
+					}
+				}
+			}
+		}
+	}
 	return out
 }
